@@ -94,7 +94,10 @@ func (w *World) writerPaths(fn *ssa.Function) *writerInfo {
 			if !ok {
 				return true
 			}
-			sc := c.Call.StaticCallee()
+			// the function the call invokes on this path: static, or through a function value
+			// the path knows (`writeItem := e.WriteData` … `writeItem(x)` is the boundary
+			// e.WriteData(x), not a helper to step into)
+			sc := px.calleeOf(c, fr, st)
 			if sc == nil {
 				return true
 			}
@@ -103,12 +106,11 @@ func (w *World) writerPaths(fn *ssa.Function) *writerInfo {
 				return true
 			}
 			ev := pxEvent{Kind: kind, Call: c, Frame: fr, Env: st.env, Pos: w.instrPos(c)}
-			args := c.Call.Args
-			if len(args) > 0 {
+			// (operands in the order of the callee's parameters; a bound receiver is not an
+			// SSA value of this frame)
+			args, _ := px.callArgs(c, fr, st)
+			if sc.Signature.Recv() != nil && len(args) > 0 {
 				args = args[1:] // receiver
-			}
-			if sc.Signature.Recv() == nil {
-				args = c.Call.Args
 			}
 			if kind == "octets" && len(args) == 1 {
 				// variadic bytes: the octets are the stores into the varargs array
